@@ -19,52 +19,59 @@ inductive Reason where
   | unproven            -- picks an arbitrary element; affects only a sub-note of a diagnostic; NOT covered
   deriving DecidableEq, Repr
 
-/-- Classification of every known site (file, function, kind).  Written by hand after reading
+/-- Classification of every known site (file, function, kind, how many such places the function has).  Written by hand after reading
     each site; the regenerated inventory `Gen.setSites` must be covered by it. -/
-def classification : List ((String × String × String) × Reason) := [
-  (("internals/ast_util.py", "__init__", "construct"), .membershipOnly),
-  (("internals/ast_util.py", "breaks_in_loop", "construct"), .membershipOnly),
-  (("internals/ast_util.py", "loop_controls_in_loop", "construct"), .membershipOnly),
-  (("internals/ast_util.py", "loop_in_ast", "construct"), .membershipOnly),
-  (("internals/ast_util.py", "return_nodes_in_ast", "construct"), .membershipOnly),
-  (("internals/cfg/analysis.py", "__init__", "construct"), .membershipOnly),
-  (("internals/cfg/analysis.py", "apply_bb", "construct"), .resultIsSet),
-  (("internals/cfg/bb.py", "visit_NestedFunctionDef", "construct"), .membershipOnly),
-  (("internals/cfg/cfg.py", "__init__", "construct"), .membershipOnly),
-  (("internals/cfg/cfg.py", "ancestors", "construct"), .membershipOnly),
-  (("internals/cfg/cfg.py", "update_reachable", "construct"), .orderIndependent),
-  (("internals/cfg/cfg.py", "update_reachable", "pop"), .orderIndependent),
-  (("internals/checker/cfg_checker.py", "check_cfg", "construct"), .membershipOnly),
-  (("internals/checker/cfg_checker.py", "check_rows_match", "construct"), .sortedFirst),
-  (("internals/checker/cfg_checker.py", "diagnose_maybe_undefined", "construct"), .membershipOnly),
-  (("internals/checker/core.py", "keys", "construct"), .resultIsSet),
-  (("internals/checker/expr_checker.py", "check_call", "construct"), .unproven),
-  (("internals/checker/expr_checker.py", "check_call", "pop"), .unproven),
-  (("internals/checker/func_checker.py", "check_nested_func_def", "construct"), .membershipOnly),
-  (("internals/checker/func_checker.py", "check_nested_func_def", "iterate"), .orderedContainer),
-  (("internals/checker/unitary_checker.py", "check_invalid_under_dagger", "construct"), .membershipOnly),
-  (("internals/compiler/cfg_compiler.py", "choose_vars_for_tuple_sum", "iterate"), .orderedContainer),
-  (("internals/compiler/cfg_compiler.py", "compile_bb", "construct"), .membershipOnly),
-  (("internals/compiler/core.py", "compile", "iterate"), .minFirst),
-  (("internals/compiler/core.py", "partially_monomorphize_args", "iterate"), .orderIndependent),
-  (("internals/compiler/core.py", "require_monomorphization", "construct"), .resultIsSet),
-  (("internals/compiler/core.py", "require_monomorphization", "iterate"), .resultIsSet),
-  (("internals/compiler/expr_compiler.py", "_new_dfcontainer", "construct"), .membershipOnly),
-  (("internals/definition/declaration.py", "parse", "iterate"), .minFirst),
-  (("internals/definition/struct.py", "params_from_ast", "construct"), .membershipOnly),
-  (("internals/definition/struct.py", "parse", "construct"), .membershipOnly),
-  (("internals/definition/struct.py", "parse", "iterate"), .minFirst),
-  (("internals/engine.py", "reset", "construct"), .membershipOnly),
-  (("internals/tys/const.py", "bound_vars", "construct"), .resultIsSet),
-  (("internals/tys/const.py", "unsolved_vars", "construct"), .resultIsSet),
-  (("internals/tys/parsing.py", "parse_parameter", "construct"), .membershipOnly),
-  (("internals/tys/ty.py", "__init__", "construct"), .membershipOnly),
-  (("internals/tys/ty.py", "_occurs", "iterate"), .resultIsSet),
-  (("internals/tys/ty.py", "bound_vars", "construct"), .resultIsSet),
-  (("internals/tys/ty.py", "unsolved_vars", "construct"), .resultIsSet)
+def classification : List ((String × String × String × Nat) × Reason) := [
+  (("internals/ast_util.py", "__init__", "construct", 1), .membershipOnly),
+  (("internals/ast_util.py", "breaks_in_loop", "construct", 1), .membershipOnly),
+  (("internals/ast_util.py", "loop_controls_in_loop", "construct", 1), .membershipOnly),
+  (("internals/ast_util.py", "loop_in_ast", "construct", 1), .membershipOnly),
+  (("internals/ast_util.py", "return_nodes_in_ast", "construct", 1), .membershipOnly),
+  (("internals/cfg/analysis.py", "__init__", "construct", 1), .membershipOnly),
+  (("internals/cfg/analysis.py", "apply_bb", "construct", 2), .resultIsSet),
+  (("internals/cfg/bb.py", "visit_NestedFunctionDef", "construct", 3), .membershipOnly),
+  (("internals/cfg/cfg.py", "__init__", "construct", 1), .membershipOnly),
+  (("internals/cfg/cfg.py", "ancestors", "construct", 1), .membershipOnly),
+  (("internals/cfg/cfg.py", "update_reachable", "construct", 1), .orderIndependent),
+  (("internals/cfg/cfg.py", "update_reachable", "pop", 1), .orderIndependent),
+  (("internals/checker/cfg_checker.py", "check_cfg", "construct", 1), .membershipOnly),
+  (("internals/checker/cfg_checker.py", "check_rows_match", "construct", 1), .sortedFirst),
+  (("internals/checker/cfg_checker.py", "diagnose_maybe_undefined", "construct", 1), .membershipOnly),
+  (("internals/checker/core.py", "keys", "construct", 2), .resultIsSet),
+  (("internals/checker/expr_checker.py", "check_call", "construct", 1), .unproven),
+  (("internals/checker/expr_checker.py", "check_call", "pop", 1), .unproven),
+  (("internals/checker/func_checker.py", "check_nested_func_def", "construct", 2), .membershipOnly),
+  (("internals/checker/func_checker.py", "check_nested_func_def", "iterate", 1), .orderedContainer),
+  (("internals/checker/unitary_checker.py", "check_invalid_under_dagger", "construct", 1), .membershipOnly),
+  (("internals/compiler/cfg_compiler.py", "choose_vars_for_tuple_sum", "iterate", 1), .orderedContainer),
+  (("internals/compiler/cfg_compiler.py", "compile_bb", "construct", 2), .membershipOnly),
+  (("internals/compiler/core.py", "compile", "iterate", 1), .minFirst),
+  (("internals/compiler/core.py", "partially_monomorphize_args", "iterate", 1), .orderIndependent),
+  (("internals/compiler/core.py", "require_monomorphization", "construct", 1), .resultIsSet),
+  (("internals/compiler/core.py", "require_monomorphization", "iterate", 1), .resultIsSet),
+  (("internals/compiler/expr_compiler.py", "_new_dfcontainer", "construct", 1), .membershipOnly),
+  (("internals/definition/declaration.py", "parse", "iterate", 1), .minFirst),
+  (("internals/definition/struct.py", "params_from_ast", "construct", 1), .membershipOnly),
+  (("internals/definition/struct.py", "parse", "construct", 1), .membershipOnly),
+  (("internals/definition/struct.py", "parse", "iterate", 1), .minFirst),
+  (("internals/engine.py", "reset", "construct", 1), .membershipOnly),
+  (("internals/tys/const.py", "bound_vars", "construct", 1), .resultIsSet),
+  (("internals/tys/const.py", "unsolved_vars", "construct", 2), .resultIsSet),
+  (("internals/tys/parsing.py", "parse_parameter", "construct", 2), .membershipOnly),
+  (("internals/tys/ty.py", "__init__", "construct", 1), .membershipOnly),
+  (("internals/tys/ty.py", "_occurs", "iterate", 1), .resultIsSet),
+  (("internals/tys/ty.py", "bound_vars", "construct", 4), .resultIsSet),
+  (("internals/tys/ty.py", "unsolved_vars", "construct", 3), .resultIsSet)
 ]
 
-def classify (s : String × String × String) : Option Reason :=
+/-- the sites that pick from a set without a proved order-freedom argument, named explicitly so that
+    the list cannot grow silently -/
+def knownUncovered : List (String × String × String × Nat) := [
+  ("internals/checker/expr_checker.py", "check_call", "construct", 1),
+  ("internals/checker/expr_checker.py", "check_call", "pop", 1)
+]
+
+def classify (s : String × String × String × Nat) : Option Reason :=
   (classification.find? (·.1 == s)).map (·.2)
 
 end GuppyVerif.Determ
